@@ -165,6 +165,15 @@ impl<'a> GcContext<'a> {
         self.inner.borrow().objs.len()
     }
 
+    #[cfg(feature = "verif-hooks")]
+    pub(crate) fn verif_flags_clean(&self) -> bool {
+        let inner = self.inner.borrow();
+        inner
+            .objs
+            .iter()
+            .all(|obj| obj.visits.get() == 0 && !obj.mark.get())
+    }
+
     pub(crate) fn gc(&self) {
         let mut inner = self.inner.borrow_mut();
         let mut mark_ctx = GcMarkCtx { queue: Vec::new() };
